@@ -286,6 +286,30 @@ func famLegit(r *Rng, o *Out, tier string) {
 				}
 			}
 		}
+		// candidates that do NOT fit, presented BEFORE the fitting discharge of the same ticket (a discharge of the
+		// same ticket bound to another token, one signed under another key): verification takes the first that
+		// fits, the failures of the others do not matter
+		if len(tps) > 0 && r.Chance(1, 2) {
+			var front [][]byte
+			for _, u := range tps {
+				if r.Bool() {
+					continue
+				}
+				if _, dw, err := macaroon.DischargeTicket(u.p.ka, u.p.loc, u.ticket); err == nil {
+					other, _ := macaroon.New(r.Bytes(4), loc, r.Bytes(32))
+					if dw.Bind(mustEnc(other)) == nil {
+						front = append(front, mustEnc(dw))
+					}
+				}
+				if f, err := macaroon.New(u.ticket, u.p.loc, r.Bytes(32)); err == nil && r.Bool() {
+					front = append(front, mustEnc(f))
+				}
+			}
+			if len(front) > 0 {
+				ds = append(front, ds...)
+				o.count("verify.nonFittingCandidatesFirst")
+			}
+		}
 		// shuffle the discharges: presentation order must not matter for which caveats come back... (they
 		// are returned in caveat order), and add junk
 		if r.Chance(1, 3) {
